@@ -28,17 +28,17 @@ import (
 const dcAuthenticate = 60010
 
 type peerConn struct {
-	end      *netsim.End
-	sentD    refcodec.Digest // cleartext this peer sent
-	recvD    refcodec.Digest // cleartext this peer received
-	sendDir  *refcodec.Dir
-	recvDir  *refcodec.Dir
-	key      []byte
-	encOn    bool
-	rbuf     []byte
-	Log      []string
-	ClearIn  [][]byte // cleartext message payloads received
-	ProtIn   int      // protected frames successfully opened
+	end           *netsim.End
+	sentD         refcodec.Digest // cleartext this peer sent
+	recvD         refcodec.Digest // cleartext this peer received
+	sendDir       *refcodec.Dir
+	recvDir       *refcodec.Dir
+	key           []byte
+	encOn         bool
+	rbuf          []byte
+	Log           []string
+	ClearIn       [][]byte // cleartext message payloads received
+	ProtIn        int      // protected frames successfully opened
 	PlainAfterKey [][]byte // frames received in clear after the key was installed
 }
 
@@ -150,7 +150,7 @@ func (a *wireAd) set(k, rawValue string) *wireAd {
 	a.Attrs[k] = rawValue
 	return a
 }
-func (a *wireAd) setS(k, v string) *wireAd { return a.set(k, strconv.Quote(v)) }
+func (a *wireAd) setS(k, v string) *wireAd     { return a.set(k, strconv.Quote(v)) }
 func (a *wireAd) setI(k string, v int) *wireAd { return a.set(k, strconv.Itoa(v)) }
 
 // str returns the unquoted string value of an attribute ("" if absent).
@@ -249,7 +249,7 @@ func (r *wireReader) ad() *wireAd {
 // ---- ECDH / key derivation (independent) ----
 
 type peerKeys struct {
-	priv *ecdh.PrivateKey
+	priv   *ecdh.PrivateKey
 	pubB64 string
 }
 
@@ -279,33 +279,33 @@ func (k *peerKeys) derive(peerB64 string) ([]byte, error) {
 // ---- scripted server ----
 
 type peerDev struct {
-	AuthAnswer   string // "YES" / "NO" / "" (= follow honest table)
-	EncAnswer    string
-	ECDH         string // "", "omit", "truncate", "random65", "notb64"
-	NoCipher     bool   // advertise no common cipher
-	Select       string // "", "unoffered", "several", "zero"
-	Denied       bool   // complete sub-protocol, then post-auth ReturnCode DENIED
-	PostAuthClear bool  // send the post-auth ad in the clear
+	AuthAnswer    string // "YES" / "NO" / "" (= follow honest table)
+	EncAnswer     string
+	ECDH          string // "", "omit", "truncate", "random65", "notb64"
+	NoCipher      bool   // advertise no common cipher
+	Select        string // "", "unoffered", "several", "zero"
+	Denied        bool   // complete sub-protocol, then post-auth ReturnCode DENIED
+	PostAuthClear bool   // send the post-auth ad in the clear
 	// client role
-	SkipBitmask bool
-	BitmaskOutside bool
+	SkipBitmask                   bool
+	BitmaskOutside                bool
 	ClaimLevelAuth, ClaimLevelEnc string // levels the scripted client advertises
-	Methods string
+	Methods                       string
 }
 
 type peerOutcome struct {
-	AuthExchangeCompleted bool   // a full CLAIMTOBE exchange ran
-	MethodRun             string
-	KeyAgreed             bool
-	Key                   []byte
-	EHandshakeDoneSeen    bool
-	AppFromE              []byte // application message received from E after the handshake
-	AppFromEProtected     bool
-	AppErr                error
+	AuthExchangeCompleted          bool // a full CLAIMTOBE exchange ran
+	MethodRun                      string
+	KeyAgreed                      bool
+	Key                            []byte
+	EHandshakeDoneSeen             bool
+	AppFromE                       []byte // application message received from E after the handshake
+	AppFromEProtected              bool
+	AppErr                         error
 	ClientAd, ServerAd, PostAuthAd *wireAd
-	Log                   []string
-	Canary                string
-	Sid                   string
+	Log                            []string
+	Canary                         string
+	Sid                            string
 }
 
 var methodBits = map[string]int{"CLAIMTOBE": 2, "FS": 4, "KERBEROS": 64, "SSL": 256, "PASSWORD": 512, "TOKEN": 2048, "SCITOKENS": 4096}
